@@ -31,6 +31,8 @@ def corpus():
         "c04 k_new_folder cbe=fs sbe=fs devs=2 hist=f0:1|s1|c0:b@1|s0|s1|s0|s1|s0|s1|s1|s0",
         # both devices change the account log (rename / create folder) while one has local events in the new folder
         "c04 k_acct_replay cbe=fs sbe=fs devs=2 hist=s1|r0:0:2|f1:1|c1:b@1|s1|s0|s1|s1|s0|s1|s0|s0|s1",
+        # the common ancestor lies more than one scan page (32 proofs) behind the server's head
+        "c04 k_far_behind cbe=fs sbe=fs devs=2 obs=end hist=s0|c0:a|s0|s1|%s|c1:b|s0|s1|s0|s1|s1|s0" % "|".join(["u0:a"] * 36),
         "c04 k_three cbe=fs sbe=fs devs=3 hist=s0|s1|s2|t:50|c0:a|t:60|c1:b|t:70|c2:c|s0|s1|s2|s2|s1|s0|s1|s0|s2",
     ]
 
